@@ -881,6 +881,75 @@ def translate(repo):
           "Definition src_resp_body_shape_ok : bool := %s." % ("true" if rh["body"] else "false"), ""]
 
 
+    # ---- src/http_conn.rs: read_body_to_vec / read_body_to_file, arm by arm and statement by statement
+    rb = {"read_body_to_vec": [], "read_body_to_file": []}
+    try:
+        hsrc = read(repo, "src/http_conn.rs")
+        PATS = [("ReadState::Body{chunked:true,..}|ReadState::Body{gzip:true,..}", "RPChunkedOrGzip"),
+                ("ReadState::Body{len:Some(len_u64),expect_continue,chunked:false,gzip:false,}", "RPKnown"),
+                ("ReadState::Body{len:Some(len),chunked:false,gzip:false,..}iflen>max_len", "RPKnownOverMax"),
+                ("ReadState::Body{len:Some(len),expect_continue,chunked:false,gzip:false,}", "RPKnown"),
+                ("ReadState::Body{len:None,expect_continue,chunked:false,gzip:false,}", "RPUnknown"),
+                ("ReadState::Head", "RPHead"), ("ReadState::Shutdown", "RPShutdown")]
+        RBERR = {"BodyNotAvailable": "REBodyNotAvailable", "UnsupportedTransferEncoding": "REUnsupportedTransferEncoding",
+                 "BodyTooLong": "REBodyTooLong", "Disconnected": "REDisconnected", "InvalidContentLength": "REInvalidContentLength"}
+        CH = r"\(&mutself\.buf\)\.chain\(&mutself\.stream\)"
+        STMTS = [(r"letlen_usize=usize::try_from\(len_u64\)\.map_err\(\|_\|HttpError::(\w+)\)\?;", lambda m: "RSTryFromLen %s" % RBERR.get(m.group(1), "REOther")),
+                 (r"ifexpect_continue\{self\.write_http_continue\(\)\.await\?;\}", lambda m: "RSContinueIfExpect"),
+                 (r"self\.read_state=ReadState::(Head|Shutdown);", lambda m: "RSSetState %s" % ("true" if m.group(1) == "Head" else "false")),
+                 (r"letresult=read_http_body_to_vec\(" + CH + r",len_usize\)\.await;", lambda m: "RSReadKnown false"),
+                 (r"letresult=read_http_body_to_file\(" + CH + r",len,dir\)\.await;", lambda m: "RSReadKnown true"),
+                 (r"ifresult\.is_err\(\)\{self\.read_state=ReadState::Shutdown;\}", lambda m: "RSShutdownIfErr"),
+                 (r"result$", lambda m: "RSResult"),
+                 (r"read_http_unsized_body_to_vec\(" + CH + r"\)\.await$", lambda m: "RSReadUnknown false"),
+                 (r"read_http_unsized_body_to_file\(" + CH + r",dir,max_len,\)\.await$", lambda m: "RSReadUnknown true")]
+        for fn in rb:
+            t = re.sub(r"\s+", "", fn_body(hsrc, "pub async fn %s" % fn))
+            m = re.fullmatch(r"matchself\.read_state\{(.*)\}", t)
+            if not m:
+                raise ValueError("%s: not a single match on self.read_state" % fn)
+            t = m.group(1)
+            while t:
+                for text, name in PATS:
+                    if t.startswith(text + "=>"):
+                        t = t[len(text) + 2:]
+                        break
+                else:
+                    raise ValueError("%s: arm pattern %r" % (fn, t[:70]))
+                if t.startswith("{"):
+                    d, j = 1, 1
+                    while d:
+                        d += {"{": 1, "}": -1}.get(t[j], 0)
+                        j += 1
+                    body, t = t[1:j - 1], t[j:]
+                    if t.startswith(","):
+                        t = t[1:]
+                else:
+                    j = t.index(",")
+                    body, t = t[:j], t[j + 1:]
+                me = re.fullmatch(r"Err\(HttpError::(\w+)\)", body)
+                if me:
+                    rb[fn].append("(%s, RAErr %s)" % (name, RBERR.get(me.group(1), "REOther")))
+                    continue
+                stmts = []
+                while body:
+                    for pat, mk in STMTS:
+                        mm = re.match(pat, body)
+                        if mm:
+                            stmts.append(mk(mm)); body = body[mm.end():]
+                            break
+                    else:
+                        raise ValueError("%s: statement %r" % (fn, body[:70]))
+                rb[fn].append("(%s, RABody [%s])" % (name, "; ".join(stmts)))
+    except Exception as e:   # noqa
+        P.append("src/http_conn.rs read_body: cannot translate (%s)" % e)
+        rb = {"read_body_to_vec": [], "read_body_to_file": []}
+    L += ["(* src/http_conn.rs HttpConn::read_body_to_vec / read_body_to_file: the arms of `match self.read_state`, in source order *)"]
+    for fn in ("read_body_to_vec", "read_body_to_file"):
+        L.append("Definition src_%s : list (rb_pat * rb_arm) := [\n  %s]." % (fn, ";\n  ".join(rb[fn])))
+    L.append("")
+
+
     # ---- src/http_conn.rs: handle_http_conn_once and handle_http_conn, statement by statement
     once, loop = [], None
     try:
@@ -1208,7 +1277,7 @@ def translate(repo):
     items = [("chunk", "src/util.rs"), ("event_queue", "src/response.rs event_stream"), ("conn_buf", "src/http_conn.rs HttpConn.buf"), ("conn_guards", "src/http_conn.rs state guards"),
              ("time", "src/time.rs"), ("content_type", "src/content_type.rs"), ("log_prio", "src/log/logger.rs log()"),
              ("event_fmt", "src/event.rs"), ("regex", "src/head.rs: cannot translate the regex"), ("cookie", "src/cookie.rs"), ("request", "src/request.rs"),
-             ("json", "src/log/tag_value.rs"), ("jsonl", "src/log/logger.rs write_jsonl"), ("writer", "src/log/log_file_writer.rs"), ("headers", "src/headers.rs"), ("pfs", "src/log/prefix_file_set.rs"), ("token_set", "src/token_set.rs"), ("write_response", "src/http_conn.rs write_response"), ("conn_loop", "src/http_conn.rs handle_http_conn"), ("resp_head", "src/response.rs write_http_response"), ("accept", "src/accept.rs accept_loop"), ("try_read", "src/head.rs try_read")]
+             ("json", "src/log/tag_value.rs"), ("jsonl", "src/log/logger.rs write_jsonl"), ("writer", "src/log/log_file_writer.rs"), ("headers", "src/headers.rs"), ("pfs", "src/log/prefix_file_set.rs"), ("token_set", "src/token_set.rs"), ("write_response", "src/http_conn.rs write_response"), ("conn_loop", "src/http_conn.rs handle_http_conn"), ("resp_head", "src/response.rs write_http_response"), ("accept", "src/accept.rs accept_loop"), ("try_read", "src/head.rs try_read"), ("read_body", "src/http_conn.rs read_body")]
     L.append("(* what the translator could not read, per item (0 everywhere = the translation is complete) *)")
     for key, prefix in items:
         L.append("Definition src_problems_%s : nat := %d." % (key, sum(1 for p in P if p.startswith(prefix))))
